@@ -89,6 +89,14 @@ func runC20(c *Ctx) {
 				track = append(track, A.Lit(recv.Name()+"."+F.Get(role)).Atom)
 			}
 		}
+		if skey == "rel" || skey == "target" {
+			// whatever decides "the href has a host" (so that the found-flags stay derivable)
+			for i, at := range A.Atoms {
+				if strings.Contains(at.Key, ".Host") && at.Phi == nil {
+					track = append(track, i)
+				}
+			}
+		}
 		if skey == "target" {
 			for i, at := range A.Atoms {
 				if at.Kind == "eq" {
